@@ -748,7 +748,7 @@ def step_correspondence_ellen(ctx, lin, only=None):
     if only is not None:
         cases = [only]
     rc1, mlog, rc2, ilog, raw = conc_check.run_both(ctx, model, impl, cases, tag="ellenstep", timeout=1500, fuel=60000)
-    diverged, steps, first, contended, shapes, monitor_fired = 0, 0, None, 0, set(), 0
+    diverged, steps, first, contended, shapes, monitor_fired, by_theorem = 0, 0, None, 0, set(), 0, 0
     for c in cases:
         m, i = mlog.get(c["id"]), ilog.get(c["id"])
         if m is None or i is None:
@@ -765,6 +765,9 @@ def step_correspondence_ellen(ctx, lin, only=None):
         if dv is not None:
             diverged += 1
             first = first or (c, dv)
+        elif all(o[0] in (1, 10) for th in c["threads"] for o in th):
+            # programs of insert / contains: C15_ellen_bst_invariant covers every state of this (model = implementation) trace
+            by_theorem += 1
     if first is not None:
         hs = [step_history(c, ilog[c["id"]]["lines"]) for c in cases if c["id"] in ilog and ilog[c["id"]]["end"] == "finished"]
         cs = [c for c in cases if c["id"] in ilog and ilog[c["id"]]["end"] == "finished"]
@@ -786,6 +789,7 @@ def step_correspondence_ellen(ctx, lin, only=None):
                     "contains, search with protect_child_node / search_protect_update and its retries, HP guards, m_nFlags loads, m_nEmptyUpdate, retire; keys 0..3",
         "cases": len(cases), "diverged": diverged, "impl_steps_compared": steps, "traces_validated_against_impl": len(cases) - diverged,
         "distinct_event_logs": len(shapes), "cases_with_failed_cas": contended, "single_preemption_sweep_cases": nsweep,
+        "impl_traces_covered_by_C15_ellen_bst_invariant": by_theorem,
         "bst_monitor": "tree_ok (keys of the left subtree < key <= keys of the right subtree, Inf1 < Inf2 on top, two children per internal node) "
                        "evaluated by the model after every atomic step; violations: %d" % monitor_fired,
         "rule": "1-3 threads x 1-3 operations, keys 0..3, prefilled subsets; uniform / bursty / run-then-switch / round-robin schedules, half of the cases "
